@@ -105,6 +105,18 @@ func init() {
 					}
 				})
 				name := c.P.FuncName(fn)
+				transfers := false
+				for i := 0; i < fn.Signature.Results().Len(); i++ {
+					if r.IsRepoType(fn.Signature.Results().At(i).Type()) {
+						transfers = true // hands the held repository to its caller, like RepoGet itself
+					}
+				}
+				if transfers {
+					if hasGet {
+						c.Pass("hold:"+kn(name), fn.Pos(), "returns the repository it obtained: the hold passes to the caller")
+					}
+					continue
+				}
 				if d, bad := e.NetHold[name]; bad {
 					c.Fail("hold:"+kn(name), fn.Pos(), "%s returns with a changed repository hold on some path (%s): a missing Done blocks garbage collection and Close of that repository forever, a second Done panics", name, d)
 				} else if hasGet {
